@@ -118,6 +118,7 @@ func (u *controlUnit) handleRunner(ctx *risc.Context, cycle int, pushed int, run
 
 func (u *controlUnit) pushRunner(ctx *risc.Context, cycle int, runner *risc.InstructionRunnerPc) {
 	u.outBus.Add(runner, cycle)
+	ctx.VerifEvent(risc.VerifKindDispatch, runner.SequenceID, 0, 0)
 	ctx.AddPendingRegisters(runner.Runner)
 	log.Infoi(ctx, "CU", runner.Runner.InstructionType(), runner.Pc, "pushing runner")
 }
